@@ -449,6 +449,7 @@ func rulePure(c *Ctx, r *Rep) {
 // ---- LINT-REUSE ----
 
 func ruleLintReuse(c *Ctx, r *Rep) {
+	pv := c.newProv()
 	n := 0
 	for _, fn := range c.Funcs {
 		// (a) x[:0] of a slice that is also handed on
@@ -517,6 +518,15 @@ func ruleLintReuse(c *Ctx, r *Rep) {
 						for _, ac := range appendCalls {
 							if reachableFromInstr(ac, ci) {
 								usedAfter = calleeFullName(ci) + " at " + c.Pos(ci.Pos())
+							}
+						}
+					}
+					// the list filtered in place is one the function was handed (a parameter, the receiver, or a field of
+					// one): the caller's elements are overwritten
+					if usedAfter == "" {
+						for _, o := range pv.Origins(sl.X) {
+							if strings.HasPrefix(o, "P(") {
+								usedAfter = "the list belongs to the caller: " + o
 							}
 						}
 					}
